@@ -203,33 +203,6 @@ func (c *Ctx) otherGenerators(k int) {
 	}
 }
 
-func (c *Ctx) startMesh() modeling.Mesh {
-	switch c.Rng.Intn(8) {
-	case 0:
-		c.Note("start:sphere")
-		return primitives.UVSphere(1, 2+c.Rng.Intn(3), 3+c.Rng.Intn(3))
-	case 1:
-		c.Note("start:cylinder")
-		return primitives.Cylinder{Sides: 3 + c.Rng.Intn(3), Height: 1, Radius: 1}.ToMesh()
-	case 2:
-		c.Note("start:cube")
-		return primitives.Cube{Height: 1, Width: 2, Depth: 1, UVs: primitives.DefaultCubeUVs()}.UnweldedQuads().
-			SetMaterials(c.genMaterials(12))
-	default:
-		c.Note("start:generated")
-		return c.genMesh(meshGen{topo: topoAll, needPos: c.Rng.Intn(3) != 0, maxVerts: 20, materials: true})
-	}
-}
-
-// filter on a topology with multi-index primitives breaks primitives apart; see notes/C02.md.
-func filterApplicable(m modeling.Mesh) bool {
-	switch m.Topology() {
-	case modeling.PointTopology, modeling.LineStripTopology, modeling.LineLoopTopology:
-		return true
-	}
-	return false
-}
-
 func (c *Ctx) opSequences(n int) {
 	all := append(append([]string{}, layoutOps...), transformOps...)
 	for s := 0; s < n; s++ {
